@@ -61,6 +61,37 @@ class Kind:
     def mat(r, c): return ('mat', r, c)
 
 
+def trim_unused_trailing_params(fn):
+    """An additive API change gives a function a new trailing keyword parameter that nothing reads yet (or that only callers
+    outside the translated code pass). Such a parameter cannot influence the result, so the model is the function without it:
+    trailing parameters that (i) have a default which is a literal constant / None / a negated literal and (ii) are not read or
+    written anywhere in the body are removed from the signature here, in the AST, before anything else looks at it. A call site
+    in translated code that passes such a parameter then fails to translate (reported, never guessed)."""
+    dropped = []
+    a = fn.args
+    if a.vararg or a.kwarg or a.kwonlyargs or getattr(a, 'posonlyargs', None):
+        return dropped
+    names = set()
+    for b in fn.body:
+        for n in ast.walk(b):
+            if isinstance(n, ast.Name):
+                names.add(n.id)
+            elif isinstance(n, (ast.Global, ast.Nonlocal)):
+                names.update(n.names)
+            elif isinstance(n, ast.Call) and isinstance(n.func, ast.Name) and n.func.id in ('locals', 'vars', 'eval', 'exec'):
+                return dropped
+
+    def literal(d):
+        if isinstance(d, ast.Constant):
+            return True
+        return isinstance(d, ast.UnaryOp) and isinstance(d.op, (ast.USub, ast.UAdd)) and isinstance(d.operand, ast.Constant)
+    while a.defaults and a.args and a.args[-1].arg not in names and literal(a.defaults[-1]):
+        dropped.append(a.args[-1].arg)
+        a.args.pop()
+        a.defaults.pop()
+    return dropped[::-1]
+
+
 class ModuleInfo:
     def __init__(self, path, modname, leanname):
         self.path = path
@@ -72,8 +103,12 @@ class ModuleInfo:
         self.classes = {}             # name -> ast.ClassDef
         self.consts = {}              # name -> ast.Assign value
         self.imports = {}             # local name -> (modname, remote name)
+        self.dropped_params = {}      # function name -> trailing parameters left out (never read, constant default)
         for node in self.tree.body:
             if isinstance(node, ast.FunctionDef):
+                dropped = trim_unused_trailing_params(node)
+                if dropped:
+                    self.dropped_params[node.name] = dropped
                 self.funcs[node.name] = node
             elif isinstance(node, ast.ClassDef):
                 self.classes[node.name] = node
